@@ -36,9 +36,13 @@ PARTIAL = [
     "and detaching. the (re)initialisers (reinitH). NOT stated at heap level: convert_to_standalone (unreachable through the public API), allocation "
     "failures (property C17)",
     "the heap model is tied to value.c / map.c / packet.c by family valheap: for every operation of the same random sequences "
-    "the change in the number of live blocks reported by the allocation tracker (harness/alloc.h) equals the change the heap "
-    "model predicts (model cells + 2 blocks per non-empty uthash map), and everything is released at the end; block CONTENTS "
-    "and addresses are not compared (ASan/UBSan watch the accesses)",
+    "(a) the change in the number of live blocks reported by the allocation tracker (harness/alloc.h) equals the change the heap "
+    "model predicts (model cells + 2 blocks per non-empty uthash map), (b) a walk of the real structures from the slots reaches "
+    "every live block exactly once (ownership: no orphan, no block owned twice), (c) the CONTENTS of all string blocks (texts, "
+    "digit strings, su digit strings, normalised keys, original spellings) equal, as a multiset (count + sum of FNV-1a hashes), "
+    "the contents of the model's str cells, and everything is released at the end; tables grown past uthash's bucket "
+    "expansions (330-900 entries) are part of the stream. Not compared: addresses, the order of allocation, the scalar "
+    "fields of the structs (kind, quoted, sign, scale, size, capacity: these are compared through the API by family val)",
 ]
 LEVEL_TEXT = ("Proof about an executable Lean model at two levels. Pure level: list operations are the sequence operations with exactly "
               "the documented CIF_INVALID_INDEX conditions; table and packet operations refine an abstract map keyed by the normalised "
@@ -51,6 +55,7 @@ LEVEL_TEXT = ("Proof about an executable Lean model at two levels. Pure level: l
               "sequences with the allocation tracker on, the per-operation change in live heap blocks compared with the heap "
               "model run on the sequence.")
 LEVEL_NOTE = ("Pure level proved in full. Heap level proved for every value / list / map / packet operation except the unreachable "
-              "convert_to_standalone and allocation failures (C17). Three open findings (F32 source inside clone target / self-clone, F33 duplicate names in cif_packet_create) are "
-              "reported as KNOWN-FINDING; the model reproduces the pinned behaviour (C19_cex_clone_alias, C19_cex_packet_create_dup).")
+              "convert_to_standalone and allocation failures (C17). The two defects this property found (F35 source inside the clone "
+              "target / self-clone, F36 duplicate names in cif_packet_create) are repaired in the sources (f1b092b, c571e89); the "
+              "model follows the repaired code, the pinned behaviour is kept as counterexample theorems (C19_cex_*_pinned). No open finding.")
 TECHNIQUE = "Lean 4 proof (refinement of an association list to an abstract map; induction over operation histories) + differential execution of random operation sequences under ASan"
